@@ -20,11 +20,39 @@ import (
 
 var guardedFields = map[string]bool{"swarms": true, "numSeeders": true, "numLeechers": true}
 
+type lockEvent struct {
+	kind string // "sec" (own critical section: val = R|W) or "call" (val = callee, held = strongest lock held at the call)
+	val  string
+	held string
+	line int
+}
+
 type lockWalker struct {
 	fset       *token.FileSet
 	fn         string
 	sections   []string
+	events     []lockEvent
+	need       string // strongest lock the caller must hold for this function's accesses outside its own sections
+	known      map[string]bool
 	violations []string
+}
+
+func stronger(a, b string) string {
+	if a == "W" || b == "W" {
+		return "W"
+	}
+	if a == "R" || b == "R" {
+		return "R"
+	}
+	return ""
+}
+
+func (s lstate) strongest() string {
+	out := ""
+	for _, v := range s {
+		out = stronger(out, v)
+	}
+	return out
 }
 
 type lstate map[string]string
@@ -91,10 +119,23 @@ func (w *lockWalker) reads(n ast.Node, st lstate, skip map[ast.Expr]bool) {
 		if _, ok := m.(*ast.FuncLit); ok {
 			return false
 		}
+		if ce, ok := m.(*ast.CallExpr); ok {
+			name := ""
+			switch f := ce.Fun.(type) {
+			case *ast.Ident:
+				name = f.Name
+			case *ast.SelectorExpr:
+				name = f.Sel.Name
+			}
+			if w.known[name] {
+				w.events = append(w.events, lockEvent{kind: "call", val: name, held: st.strongest(), line: w.fset.Position(ce.Pos()).Line})
+			}
+		}
 		if se, ok := m.(*ast.SelectorExpr); ok && !skip[se] {
 			if id, ok := se.X.(*ast.Ident); ok && guardedFields[se.Sel.Name] {
 				if st[id.Name] == "" {
-					w.viol(se.Pos(), "read of %s.%s outside a critical section", id.Name, se.Sel.Name)
+					// not an error in a helper: the caller must hold the lock (checked when the call graph is flattened)
+					w.need = stronger(w.need, "R")
 				}
 			}
 		}
@@ -104,7 +145,11 @@ func (w *lockWalker) reads(n ast.Node, st lstate, skip map[ast.Expr]bool) {
 
 func (w *lockWalker) write(e ast.Expr, st lstate) bool {
 	if v, ok := guardedBase(e); ok {
-		if st[v] != "W" {
+		switch st[v] {
+		case "W":
+		case "":
+			w.need = "W" // the caller must hold the write lock
+		default:
 			w.viol(e.Pos(), "write to %s under lock state %q", exprPath(e), st[v])
 		}
 		return true
@@ -163,6 +208,7 @@ func (w *lockWalker) stmt(s ast.Stmt, st lstate, loopStart lstate) lstate {
 						st = st.copy()
 						st[id.Name] = kind
 						w.sections = append(w.sections, kind)
+						w.events = append(w.events, lockEvent{kind: "sec", val: kind, line: w.fset.Position(x.Pos()).Line})
 						return st
 					case "Unlock", "RUnlock":
 						want := map[string]string{"Unlock": "W", "RUnlock": "R"}[sel.Sel.Name]
@@ -325,39 +371,116 @@ func lockDiscipline(repo string) (interface{}, error) {
 	if err != nil {
 		return nil, err
 	}
-	sections := map[string][]string{}
+	known := map[string]bool{}
+	for _, d := range f.Decls {
+		if fd, ok := d.(*ast.FuncDecl); ok && fd.Body != nil {
+			known[fd.Name.Name] = true
+		}
+	}
+	infos := map[string]*lockWalker{}
+	var roots []string // function literals: goroutine bodies and callbacks, nobody holds a lock for them
 	violations := []string{}
 	var analyse func(name string, body *ast.BlockStmt)
 	analyse = func(name string, body *ast.BlockStmt) {
-		w := &lockWalker{fset: fset, fn: name}
+		w := &lockWalker{fset: fset, fn: name, known: known}
 		end := w.block(body.List, lstate{}, nil)
 		for k, v := range end {
 			if v != "" {
 				w.viol(body.End(), "function ends while holding %s:%s", k, v)
 			}
 		}
-		if len(w.sections) > 0 {
-			sections[name] = w.sections
-		}
+		infos[name] = w
 		violations = append(violations, w.violations...)
-		// nested function literals (goroutines)
 		i := 0
 		ast.Inspect(body, func(n ast.Node) bool {
 			if fl, ok := n.(*ast.FuncLit); ok {
 				i++
-				analyse(fmt.Sprintf("%s.func%d", name, i), fl.Body)
+				sub := fmt.Sprintf("%s.func%d", name, i)
+				roots = append(roots, sub)
+				analyse(sub, fl.Body)
 				return false
 			}
 			return true
 		})
 	}
+	entry := map[string]bool{"collectGarbage": true, "populateProm": true}
 	for _, d := range f.Decls {
 		if fd, ok := d.(*ast.FuncDecl); ok && fd.Body != nil {
 			analyse(fd.Name.Name, fd.Body)
+			if fd.Recv != nil && ast.IsExported(fd.Name.Name) {
+				entry[fd.Name.Name] = true
+			}
 		}
 	}
+	// flatten the call graph: the critical sections an operation executes, in program order, helpers inlined;
+	// and the lock a function needs from its caller
+	type flat struct {
+		secs []string
+		need string
+	}
+	memo := map[string]*flat{}
+	var flatten func(name string, stack map[string]bool) *flat
+	flatten = func(name string, stack map[string]bool) *flat {
+		if r, ok := memo[name]; ok {
+			return r
+		}
+		w := infos[name]
+		r := &flat{}
+		if w == nil || stack[name] {
+			return r
+		}
+		stack[name] = true
+		r.need = w.need
+		for _, e := range w.events {
+			if e.kind == "sec" {
+				r.secs = append(r.secs, e.val)
+				continue
+			}
+			c := flatten(e.val, stack)
+			if len(c.secs) > 0 && e.held != "" {
+				violations = append(violations, fmt.Sprintf("%s line %d: calls %s, which takes a shard lock, while holding %s", name, e.line, e.val, e.held))
+			}
+			r.secs = append(r.secs, c.secs...)
+			switch {
+			case c.need == "":
+			case e.held == "":
+				r.need = stronger(r.need, c.need)
+			case c.need == "W" && e.held != "W":
+				violations = append(violations, fmt.Sprintf("%s line %d: calls %s, which writes guarded state, under lock state %q", name, e.line, e.val, e.held))
+			}
+		}
+		delete(stack, name)
+		memo[name] = r
+		return r
+	}
+	sections := map[string][]string{}
+	for name := range entry {
+		r := flatten(name, map[string]bool{})
+		if r.need != "" {
+			violations = append(violations, fmt.Sprintf("%s: guarded state accessed outside a critical section (needs %s from a caller that does not exist)", name, r.need))
+		}
+		if len(r.secs) > 0 {
+			sections[name] = r.secs
+		}
+	}
+	var gor []string
+	seen := map[string]bool{}
+	for _, name := range roots {
+		r := flatten(name, map[string]bool{})
+		if r.need != "" {
+			violations = append(violations, fmt.Sprintf("%s: guarded state accessed outside a critical section", name))
+		}
+		if len(r.secs) > 0 {
+			k := strings.Join(r.secs, ",")
+			if !seen[k] {
+				seen[k] = true
+				gor = append(gor, k)
+			}
+		}
+	}
+	sort.Strings(gor)
 	sort.Strings(violations)
-	return map[string]interface{}{"sections": sections, "violations": violations}, nil
+	return map[string]interface{}{"sections": sections, "background": gor, "violations": violations}, nil
 }
 
 func init() { moreFacts["memory_lock_discipline"] = lockDiscipline }
